@@ -228,14 +228,14 @@ PROPS = {
     ),
     "C12": dict(
         design_ref="DESIGN.md 4 (C12)",
-        level_text="Coq theorems over the executable parser model: SOUNDNESS - whatever strict mode accepts without reporting an error (from any source text, or any token list without an interior end-of-input token) is a program of the relaxed grammar GrammarLax.v = the ECMAScript grammar of the subset (Grammar.v, validated against node 20) plus six explicit relaxations, each a recorded finding (KF6 assignment targets, KF7 member names, KF15 parameters, object keys, KF12 declarations as single statements, KF11 postfix expressions as callees); the relaxed grammar contains the strict one; CAUSALITY - if a token list agrees with an accepted one on its first k tokens, every error reported for it is located no earlier than token k-1 (any mode / interceptors / operators). With C10 (unterminated literals are ILLEGAL tokens) a corrupted text outside the relaxed grammar is never accepted silently. The oracle compares with node 20 over every single-token deletion, separator removal and truncation of generated programs and reports the recorded findings.",
+        level_text="Coq theorems over the executable parser model: SOUNDNESS - whatever strict mode accepts without reporting an error (from any source text, or any token list without an interior end-of-input token) is a program of the relaxed grammar GrammarLax.v = the ECMAScript grammar of the subset (Grammar.v, validated against node 20) plus five explicit relaxations, each a recorded finding (KF6 assignment targets, KF7 member names, object keys, KF12 declarations as single statements, KF11 postfix expressions as callees; function parameters are identifiers since the repair of KF15); the relaxed grammar contains the strict one; CAUSALITY - if a token list agrees with an accepted one on its first k tokens, every error reported for it is located no earlier than token k-1 (any mode / interceptors / operators). With C10 (unterminated literals are ILLEGAL tokens) a corrupted text outside the relaxed grammar is never accepted silently. The oracle compares with node 20 over every single-token deletion, separator removal and truncation of generated programs and reports the recorded findings.",
         level_note="Trusted: Coq kernel, translator xjs2v, extraction, harness/driver correspondence (parse suite with token-level mutations). node 20 only in the search oracle. 'Valid JavaScript' in theorems means Grammar.v / GrammarLax.v, not an external parser.",
         technique="Coq proof (lockstep simulation of two parser runs with different fuels) + model/implementation correspondence; reference-engine oracle as search",
         suites=[dict(suite="parse", n_quick=3000, n_thorough=100000, what="sources incl. token-level mutations x 4 modes: tree, errors with ranges, flag"),
                 dict(suite="lex", n_quick=2000, n_thorough=100000, what="unterminated literals etc.: all token fields")],
         oracle_n_quick=150, oracle_n_thorough=5000, oracle_n_search=600,
         explanation="C12: C12_error_not_early, C12_sound, C12_sound_lexed, C12_lax_contains_strict.",
-        open_statements=["soundness w.r.t. the strict grammar is false on the unchanged tree exactly by the recorded findings KF6, KF7, KF11, KF12, KF14-KF16; lexical relaxations (KF14 reserved words) are outside the token-level grammar"],
+        open_statements=["soundness w.r.t. the strict grammar is false on the unchanged tree exactly by the recorded findings KF6, KF7, KF11, KF12, KF14, KF16; lexical relaxations (KF14 reserved words) are outside the token-level grammar"],
     ),
 }
 
